@@ -90,7 +90,9 @@ def gen_history(rng, thorough):
       overwrite = False     # keep most Orbax histories outside the F14 region
     saves.append({'step': step, 'payload': payload, 'keep': rng.choice([0, 1, 1, 2, 2, 3, 4]), 'overwrite': overwrite,
                   'every': rng.choice([None, None, 2, 5, 10]), 'crash': (rng.randint(0, 7) if i == crash_at else None)})
-  return {'prefix': rng.choice(['checkpoint_', 'model', 'ckpt_']), 'orbax': orbax, 'saves': saves, 'async': (not orbax) and rng.random() < 0.7 and crash_at is None, 'overlap': rng.random() < 0.7}
+  return {'prefix': rng.choice(['checkpoint_', 'model', 'ckpt_']), 'orbax': orbax, 'saves': saves, 'async': (not orbax) and rng.random() < 0.7 and crash_at is None, 'overlap': rng.random() < 0.7,
+          # the legacy back-end on the native shim of flax/io.py (what runs without tensorflow): crash points are the os / shutil primitives it is made of
+          'native_io': (not orbax) and rng.random() < 0.4}
 
 
 def distinct_step_values(h):
@@ -268,7 +270,8 @@ Definition chk (rows : list row) : bool := replay [] rows.
   chk.notes['histories'] = len(hs)
   chk.notes['saves_that_crashed'] = ncrash
   chk.notes['atomic_operation_kinds_observed'] = opkinds
-  chk.notes['backends'] = {'orbax': sum(1 for h in hs if h['orbax']), 'legacy': sum(1 for h in hs if not h['orbax']), 'async': sum(1 for h in hs if h.get('async'))}
+  chk.notes['backends'] = {'orbax': sum(1 for h in hs if h['orbax']), 'legacy': sum(1 for h in hs if not h['orbax']), 'async': sum(1 for h in hs if h.get('async')),
+                           'legacy_on_native_io_shim': sum(1 for h in hs if h.get('native_io'))}
   chk.cov['rule'] = ('random histories of 2-6 saves (ints, floats, mixed, older and existing steps), keep 1-4, keep_every_n_steps in {None,2,5,10}, overwrite, 3 prefixes, both back-ends, '
                      'AsyncManager; in ~80% of histories one save dies after k in 0..7 atomic operations (torn write included); in the thorough tier every crash point of every save '
                      'of 60 histories. Observed after every save: directory snapshot (every entry restored), outcome, operation kinds, latest_checkpoint, available_steps, restore of latest. '
